@@ -213,6 +213,7 @@ type FA struct {
 	local     map[*ssa.Alloc]bool // non-escaping allocs
 	idx       map[ssa.Instruction]int
 	inProg    map[ssa.Value]bool
+	exempt    map[*ssa.BasicBlock]bool // EntailsOnEdgesExcept: ways in that need not entail the goal
 }
 
 var faCache = map[*ssa.Function]*FA{}
